@@ -352,6 +352,23 @@ func installStdlib(m *Machine) {
 		}
 		return unknownCall("strconv.Itoa", args), nil
 	}
+	m.Ext["strconv.Quote"] = func(m *Machine, pos token.Pos, recv Value, args []Value) (Value, error) {
+		// tokens stand for identifiers and import paths: nothing in them needs escaping
+		if sv, ok := args[0].(*Sym); ok {
+			plain := true
+			for _, p := range sv.Parts {
+				for _, r := range p.Lit {
+					if r < 0x20 || r > 0x7e || r == '"' || r == '\\' {
+						plain = false
+					}
+				}
+			}
+			if plain {
+				return Concat(Concat(Lit("\""), sv), Lit("\"")), nil
+			}
+		}
+		return unknownCall("strconv.Quote", args), nil
+	}
 	m.Ext["fmt.Sprintf"] = func(m *Machine, pos token.Pos, recv Value, args []Value) (Value, error) {
 		if len(args) == 0 {
 			return nil, undecided(pos, "fmt.Sprintf without a format")
